@@ -25,6 +25,7 @@
 
 namespace xsim {
 #include "rt_base.inc"
+#include "rt_fnprobe.inc"
 #include "rt_sched.inc"
 #include "rt_mem.inc"
 } // namespace xsim
